@@ -34,6 +34,26 @@ func (g G) Range(lo, hi int) int {
 	return lo + g.Intn(hi-lo+1)
 }
 
+// BoundarySize draws a size in [lo,hi], biased towards the sizes at which
+// implementations change algorithm or storage: 0,1,2,3, and 2^k-1, 2^k, 2^k+1.
+func (g G) BoundarySize(lo, hi int) int {
+	if hi <= lo {
+		return lo
+	}
+	if g.Chance(1, 3) {
+		var c []int
+		for _, b := range []int{0, 1, 2, 3, 4, 5, 7, 8, 9, 15, 16, 17, 31, 32, 33, 63, 64, 65, 127, 128, 129, 199, 200, 255, 256, 257} {
+			if b >= lo && b <= hi {
+				c = append(c, b)
+			}
+		}
+		if len(c) > 0 {
+			return c[g.Intn(len(c))]
+		}
+	}
+	return g.Range(lo, hi)
+}
+
 // Chance is true with probability num/den; false is the simplest choice.
 func (g G) Chance(num, den int) bool {
 	return g.Intn(den) >= den-num
